@@ -610,7 +610,7 @@ func main() {
 	out := func(s string) { fmt.Fprintln(w, s) }
 	switch args.Cmd {
 	case "gen":
-		r := hx.NewRand(args.Seed)
+		r := hx.NewRand(cx.MixSeed(args.Seed))
 		st := hx.NewStats()
 		for i, f := range fixed() {
 			runScript(fmt.Sprintf("c02-fix-%d", i), f.c, f.ts, nil, st, out)
